@@ -108,6 +108,7 @@ static struct {
   int timer_fd;
   uint64_t ticks_delivered, ticks_read;
   void* exit_sp;
+  void* last_pc;
   int exit_status;
   int inproc;
   uint64_t tso_max_age;
@@ -244,6 +245,8 @@ static size_t arena_block_size(void* p) {
 static inline int use_arena(void) { return vs.active && !vs.in_rt; }
 
 static void tso_drain_self(void);
+static void* real_sym(const char* name);
+static inline void sched_point(uintptr_t a, int size, int is_write);
 
 void* malloc(size_t n) {
   if (!use_arena()) return __libc_malloc(n);
@@ -742,8 +745,8 @@ static inline void shadow_check(uintptr_t a, int size, int is_write) {
     uint8_t s2 = shadow[(off + size - 1) >> 3];
     if (s != 1 || s2 != 1) {
       vs.in_rt++;
-      vs_violation(s == 2 || s2 == 2 ? "use_after_reclaim" : "heap_out_of_bounds", "%s of %d bytes at %p (arena+%zu) by vthread %d at point %llu",
-                   is_write ? "write" : "read", size, (void*)a, off, vs.cur->id, (unsigned long long)vs.points);
+      vs_violation(s == 2 || s2 == 2 ? "use_after_reclaim" : "heap_out_of_bounds", "%s of %d bytes at %p (arena+%zu) by vthread %d at point %llu, pc %p",
+                   is_write ? "write" : "read", size, (void*)a, off, vs.cur->id, (unsigned long long)vs.points, vs.last_pc);
     }
   }
 }
@@ -1018,8 +1021,8 @@ static inline void on_write(void* a, int size) {
   }
 }
 #define RW(n)                                                   \
-  void __tsan_read##n(void* a) { on_read(a, n); }               \
-  void __tsan_write##n(void* a) { on_write(a, n); }             \
+  void __tsan_read##n(void* a) { vs.last_pc = __builtin_return_address(0); on_read(a, n); }               \
+  void __tsan_write##n(void* a) { vs.last_pc = __builtin_return_address(0); on_write(a, n); }             \
   void __tsan_unaligned_read##n(void* a) { on_read(a, n); }     \
   void __tsan_unaligned_write##n(void* a) { on_write(a, n); }   \
   void __tsan_volatile_read##n(void* a) { on_read(a, n); }      \
@@ -1048,6 +1051,7 @@ static inline void full_barrier(void) {
 #define ATOMICS(T, n)                                                                                      \
   T __tsan_atomic##n##_load(const volatile T* a, int mo) {                                                  \
     (void)mo;                                                                                               \
+    vs.last_pc = __builtin_return_address(0);                                                               \
     atomic_pre((void*)a, sizeof(T), 0);                                                                     \
     if (vs.active && vs.cfg.tso && !vs.in_rt) tso_note_read((uintptr_t)a, sizeof(T));                      \
     return *a;                                                                                              \
@@ -1201,6 +1205,22 @@ void* memmove(void* d, const void* s, size_t n) {
   }
   bcopy_(d, s, n);
   return d;
+}
+
+// qsort is called by the hazard-pointer scan on memory the caller has just stored to: an uninstrumented
+// writer must never run on top of buffered stores (they would be re-applied over its result)
+void qsort(void* base, size_t n, size_t sz, int (*cmp)(const void*, const void*)) {
+  static void (*real)(void*, size_t, size_t, int (*)(const void*, const void*));
+  if (!real) real = (void (*)(void*, size_t, size_t, int (*)(const void*, const void*)))real_sym("qsort");
+  if (vs.active && !vs.in_rt) {
+    tso_drain_self();
+    sched_point((uintptr_t)base, 0, 1);
+  }
+  real(base, n, sz, cmp);
+}
+// full fence on behalf of the harness (operation boundary in TSO mode)
+void vs_drain(void) {
+  if (vs.active) tso_drain_self();
 }
 
 // ---------------------------------------------------------------------------
